@@ -240,7 +240,7 @@ def _splice_struct(src_text, s, counts):
 def build_unit(scratch, name, unit):
     counts = {}
     parts = ["// GENERATED on every run by /verif/lib/verus_engine.py from the working tree – do not edit\n",
-             "#![allow(unused_imports, dead_code, unused_variables, unused_mut, unused_parens)]\n",
+             "#![feature(allocator_api)]\n#![allow(unused_imports, dead_code, unused_variables, unused_mut, unused_parens)]\n",
              "use vstd::prelude::*;\n", "use vstd::slice::slice_subrange;\n", "use std::sync::Arc;\n", "use vstd::std_specs::iter::IteratorSpec;\n", "verus! {\n"]
     prelude = open(os.environ.get("VERIF_PRELUDE") or os.path.join(VERIF, "verus", "prelude.rs")).read()
     for sec in unit.get("prelude_sections", []):
